@@ -57,3 +57,29 @@ def solve(assertions, timeout_s=120, log=None):
     try: os.unlink(f.name)
     except OSError: pass
     return verdict, who
+
+
+def cross_check(assertions, timeout_s=20):
+    """every available external solver's verdict on one query: {name: 'sat'|'unsat'|'unknown'} (used to diff solvers on a sample of the
+    queries a check discharged; an `(error` line counts as unknown)"""
+    try: txt = to_smt2(assertions)
+    except Exception as e: return {}
+    d = os.path.join(build.OUT, 'smt'); os.makedirs(d, exist_ok=True)
+    f = tempfile.NamedTemporaryFile('w', suffix='.smt2', dir=d, delete=False)
+    f.write(txt); f.close()
+    out = {}
+    procs = []
+    for name, cmd in CONFIGS[:3]:
+        if not shutil.which(cmd[0]): continue
+        extra = [f'-T:{int(timeout_s)}'] if 'z3' in cmd[0] else [f'--tlimit={int(timeout_s * 1000)}']
+        try: procs.append((name, subprocess.Popen(cmd + extra + [f.name], stdout=subprocess.PIPE, stderr=subprocess.STDOUT, text=True)))
+        except OSError: pass
+    for name, p in procs:
+        try: o = p.communicate(timeout=timeout_s + 5)[0]
+        except subprocess.TimeoutExpired:
+            p.kill(); o = ''
+        first = o.strip().splitlines()[0].strip() if o.strip() else ''
+        out[name] = first if (first in ('sat', 'unsat') and '(error' not in o) else 'unknown'
+    try: os.unlink(f.name)
+    except OSError: pass
+    return out
